@@ -6,11 +6,11 @@ T = {
  "C01": ("fn: exact-integer oracle over constructive residue inputs to compute_swap; system: ledger product/ask-reserve monitor over every successful swap in seeded world histories", "4/C01"),
  "C02": ("ledger settlement-equation monitor over every swap attempt incl. the malformed cross product (asset delivered x named x amount x funds x entry)", "4/C02"),
  "C03": ("invariant monitor r0*r1*S'^2 >= ... after every step of seeded multi-actor histories (ledger snapshots)", "4/C03"),
- "C04": ("ledger monitor with exact pro-rata bounds and full-delta equality on every withdrawal", "4/C04"),
+ "C04": ("ledger monitor with exact pro-rata bounds and full-delta equality on every withdrawal, incl. hooks delivered by other tokens and withdrawals while a pool token is frozen", "4/C04"),
  "C05": ("ledger monitor (share bounds, pulls, reserved unit, whitelist/minimums) on every provision + exact reference for the share formula", "4/C05"),
  "C06": ("exact-rational reference oracle (band, commission identity, sum identity, monotonicity) over compute_swap calls, pair Simulation answers and swap attributes", "4/C06"),
  "C07": ("full-ledger conservation / declared-cells monitor after every step (all accounts x all assets, supplies, bystander allowances, storage digests)", "4/C07"),
- "C08": ("two-way exact-arithmetic oracle (Python ints) over every Uint256/Decimal256 operator; thorough adds the exhaustive limb grid and a valgrind-memcheck replay", "4/C08"),
+ "C08": ("two-way exact-arithmetic oracle (Python ints) over every Uint256/Decimal256 operator; thorough adds the exhaustive limb grid and differential replays of the op stream and of recorded world request logs under valgrind memcheck and under an AddressSanitizer build (nightly)", "4/C08"),
  "C09": ("declared-vs-attached grid monitor at function level and through provide / swap / hook in worlds; failure => unchanged ledger", "4/C09"),
  "C10": ("guard-verdict oracle in exact rationals over assert_max_spread calls near the limit and over guarded swaps executed after interleaved foreign operations", "4/C10"),
  "C11": ("router trace monitor: recipient gain >= minimum_receive on success, bit-identical ledger and digests on failure, stale quotes both ways", "4/C11"),
@@ -18,11 +18,11 @@ T = {
  "C13": ("router pass-through monitor: recipient gain == same-state router quote, router ends at zero, only final asset delivered; bad route shapes must fail", "4/C13"),
  "C14": ("exhaustive walk of the (entry point x caller role x phase) access matrix in sampled world states; unauthorised cell => failure with unchanged ledger/digests", "4/C14"),
  "C15": ("guard-verdict oracle in exact rationals over assert_slippage_tolerance near the limit and provisions with tolerance after interleaved swaps", "4/C15"),
- "C16": ("reference-model monitor (dict keyed by frozenset of typed ids) after every CreatePair attempt in registry worlds with prefix/split denom families", "4/C16"),
- "C17": ("reference-model monitor after every decimals re-registration: all three views of every pair vs model, untouched pairs by storage digest, registries up to 40 pairs", "4/C17"),
- "C18": ("round-trip and denotation oracles over structured values, an exhaustive string space and random hostile numerals; thorough adds a valgrind-memcheck replay", "4/C18"),
- "C19": ("exhaustive page-size x cursor-orientation walks per registry (0..40 pairs) checked for completeness, duplicates and caps", "4/C19"),
- "C20": ("injection monitor: entitled withdrawals injected into hostile histories must succeed (one-step bounded progress)", "4/C20"),
+ "C16": ("reference-model monitor (dict keyed by frozenset of typed ids) after every CreatePair attempt, re-registration and administrative action (pair / factory / token migrations, code-id switches) in registry worlds with prefix/split denom families", "4/C16"),
+ "C17": ("reference-model monitor after every decimals re-registration: all three views of every pair vs model, untouched pairs by storage digest, registries up to 40 pairs, 600-update histories, dead tokens, pairs out of order and repaired", "4/C17"),
+ "C18": ("round-trip and denotation oracles over structured values, an exhaustive string space, random hostile numerals and format specifications; thorough adds differential replays under valgrind memcheck and an AddressSanitizer build", "4/C18"),
+ "C19": ("exhaustive page-size x cursor-orientation walks per registry (0..40 pairs) checked for completeness, duplicates and caps, after factory / pair migrations and with one oversized record", "4/C19"),
+ "C20": ("injection monitor: entitled withdrawals injected into hostile histories must succeed (one-step bounded progress); churn worlds paying out more than 2^128 in total", "4/C20"),
 }
 checks = []
 for pid, (tech, ref) in sorted(T.items()):
